@@ -10,6 +10,7 @@ import (
 	"go/constant"
 	"go/token"
 	"go/types"
+	"math/big"
 	"sort"
 	"strings"
 
@@ -335,19 +336,40 @@ func (c *Ctx) PaletteReadResets() []core.Ob {
 		if !ok || !call.Common().IsInvoke() || call.Common().Method.Name() != "ReadFrom" {
 			continue
 		}
-		ld, ok := call.Common().Value.(*ssa.UnOp)
-		if !ok || ld.Op != token.MUL {
+		// the decoded object: a field of the receiver, possibly handed through a helper or closure parameter
+		val, fr := nd.frame.resolve(call.Common().Value)
+		for {
+			switch x := val.(type) {
+			case *ssa.MakeInterface:
+				val = x.X
+				continue
+			case *ssa.ChangeInterface:
+				val = x.X
+				continue
+			}
+			break
+		}
+		ld, ok := val.(*ssa.UnOp)
+		if !ok || ld.Op != token.MUL || fr == nil {
 			continue
 		}
-		f := v.recvField(nd, ld.X)
+		f := v.fieldInFrame(fr, ld.X)
 		if f == "" || strings.Contains(f, ".") {
 			continue
 		}
+		if _, isIface := ld.Type().Underlying().(*types.Interface); !isIface {
+			continue // (the packed data is a concrete object that is re-filled in place)
+		}
 		n++
 		fresh := false
+		var stores []int
 		for _, m := range v.nodes {
 			st, ok := m.in.(*ssa.Store)
-			if !ok || v.recvField(m, st.Addr) != f || !v.dominates(m.id, nd.id) {
+			if !ok || v.recvField(m, st.Addr) != f {
+				continue
+			}
+			stores = append(stores, m.id)
+			if !v.dominates(m.id, nd.id) && v.reachAvoidingErrAware(v.entry, nd.id, []int{m.id}) {
 				continue
 			}
 			val := st.Val
@@ -1777,7 +1799,8 @@ func errKnownNonNil(e ssa.Value, b *ssa.BasicBlock) bool {
 // directlyReturnedCall: `return f(...)`: the call whose results are exactly what the return hands back (nil otherwise).
 func directlyReturnedCall(ret *ssa.Return) ssa.Value {
 	if len(ret.Results) == 1 {
-		if cl, ok := ret.Results[0].(*ssa.Call); ok {
+		// (not `err := f(); if err != nil { return err }`: there the call is in an earlier block)
+		if cl, ok := ret.Results[0].(*ssa.Call); ok && cl.Block() == ret.Block() {
 			return cl
 		}
 		return nil
@@ -1905,63 +1928,62 @@ func (c *Ctx) RippleCarry(pkgs ...string) []core.Ob {
 
 func (c *Ctx) BlockSlices(pkg string) []core.Ob {
 	var obs []core.Ob
-	for _, fn := range c.Funcs() {
-		if !inPkgs(fn, pkg) || len(fn.Params) < 2 || fn.Signature.Recv() == nil {
+	for _, root := range c.Funcs() {
+		// the exported stream methods; the slices and the gate may live in helpers of the package
+		if !inPkgs(root, pkg) || len(root.Params) < 2 || root.Signature.Recv() == nil || root.Parent() != nil || root.Object() == nil || !root.Object().Exported() {
 			continue
 		}
-		recv := fn.Params[0]
-		isBS := func(v ssa.Value) bool {
-			v = stripConv(v)
-			ld, ok := v.(*ssa.UnOp)
-			if !ok || ld.Op != token.MUL {
+		v := c.inlineView(root, 2)
+		rootParam := func(n *inode, x ssa.Value) *ssa.Parameter {
+			val, fr := n.frame.resolve(stripConv(x))
+			if p, ok := val.(*ssa.Parameter); ok && fr != nil && fr.parent == nil && p != root.Params[0] {
+				return p
+			}
+			return nil
+		}
+		isBS := func(n *inode, x ssa.Value) bool {
+			val, fr := n.frame.resolve(stripConv(x))
+			val = stripConv(val)
+			ld, ok := val.(*ssa.UnOp)
+			if !ok || ld.Op != token.MUL || fr == nil {
 				return false
 			}
-			f := rootFieldOfAddr(ld.X, recv)
+			f := v.fieldInFrame(fr, ld.X)
 			if f == "" || strings.Contains(f, ".") {
 				return false
 			}
 			bt, ok := ld.Type().Underlying().(*types.Basic)
 			return ok && bt.Info()&types.IsInteger != 0
 		}
-		var mentionsBS func(v ssa.Value, d int) bool
-		mentionsBS = func(v ssa.Value, d int) bool {
+		var mentionsBS func(n *inode, x ssa.Value, d int) bool
+		mentionsBS = func(n *inode, x ssa.Value, d int) bool {
 			if d > 4 {
 				return false
 			}
-			if isBS(v) {
+			if isBS(n, x) {
 				return true
 			}
-			if bo, ok := stripConv(v).(*ssa.BinOp); ok {
-				return mentionsBS(bo.X, d+1) || mentionsBS(bo.Y, d+1)
+			if bo, ok := stripConv(x).(*ssa.BinOp); ok {
+				return mentionsBS(n, bo.X, d+1) || mentionsBS(n, bo.Y, d+1)
 			}
 			return false
 		}
-		lenOf := func(v ssa.Value) *ssa.Parameter {
-			cl, ok := stripConv(v).(*ssa.Call)
+		lenOf := func(n *inode, x ssa.Value) *ssa.Parameter {
+			cl, ok := stripConv(x).(*ssa.Call)
 			if !ok {
 				return nil
 			}
 			if bi, isB := cl.Common().Value.(*ssa.Builtin); !isB || bi.Name() != "len" {
 				return nil
 			}
-			p, _ := cl.Common().Args[0].(*ssa.Parameter)
-			return p
+			return rootParam(n, cl.Common().Args[0])
 		}
-		// gates: block G ends in If(len(P) > E(bs)) -> true successor
-		type gate struct {
-			p    *ssa.Parameter
-			succ *ssa.BasicBlock
-		}
-		var gates []gate
-		// refusals: If(len(Q) < len(P)) whose true side panics: afterwards len(Q) >= len(P)
+		gates := map[*ssa.Parameter][]int{} // P -> nodes entered when len(P) exceeds the block size expression
 		type rel struct{ q, p *ssa.Parameter }
-		var geq []struct {
-			rel
-			succ *ssa.BasicBlock
-		}
-		for _, b := range fn.Blocks {
-			iff, ok := b.Instrs[len(b.Instrs)-1].(*ssa.If)
-			if !ok {
+		geq := map[rel][]int{} // len(Q) >= len(P) holds from these nodes on
+		for _, n := range v.nodes {
+			iff, ok := n.in.(*ssa.If)
+			if !ok || len(n.succs) != 2 {
 				continue
 			}
 			cmp, ok := iff.Cond.(*ssa.BinOp)
@@ -1969,66 +1991,63 @@ func (c *Ctx) BlockSlices(pkg string) []core.Ob {
 				continue
 			}
 			x, y, op := cmp.X, cmp.Y, cmp.Op
-			if op == token.LSS || op == token.LEQ {
-				x, y = y, x
-				if op == token.LSS {
-					op = token.GTR
-				} else {
-					op = token.GEQ
-				}
+			tSucc, fSucc := n.succs[0], n.succs[1]
+			switch op {
+			case token.LSS:
+				x, y, op = y, x, token.GTR
+			case token.LEQ:
+				x, y, op = y, x, token.GEQ
 			}
-			// now: x > y  or x >= y on the true edge
-			if op == token.GTR || op == token.GEQ {
-				if p := lenOf(x); p != nil && mentionsBS(y, 0) {
-					gates = append(gates, gate{p, b.Succs[0]})
-				}
-				// len(P) > len(Q) true -> panic: false edge has len(Q) >= len(P)
-				if p, q := lenOf(x), lenOf(y); p != nil && q != nil && op == token.GTR {
-					if _, isPanic := b.Succs[0].Instrs[len(b.Succs[0].Instrs)-1].(*ssa.Panic); isPanic {
-						geq = append(geq, struct {
-							rel
-							succ *ssa.BasicBlock
-						}{rel{q, p}, b.Succs[1]})
-					}
+			if op != token.GTR && op != token.GEQ {
+				continue
+			}
+			// x > y (x >= y) on tSucc ; y >= x (y > x) on fSucc
+			if p := lenOf(n, x); p != nil && mentionsBS(n, y, 0) {
+				gates[p] = append(gates[p], tSucc)
+			}
+			if p := lenOf(n, y); p != nil && mentionsBS(n, x, 0) && op == token.GEQ {
+				// E >= len(P) true -> not enough; the false side has len(P) > E
+				gates[p] = append(gates[p], fSucc)
+			}
+			if p, q := lenOf(n, x), lenOf(n, y); p != nil && q != nil && op == token.GTR {
+				// len(P) > len(Q) leads to a refusal: afterwards len(Q) >= len(P)
+				if _, isPanic := v.nodes[tSucc].in.Block().Instrs[len(v.nodes[tSucc].in.Block().Instrs)-1].(*ssa.Panic); isPanic {
+					geq[rel{q, p}] = append(geq[rel{q, p}], fSucc)
 				}
 			}
 		}
 		k := 0
-		for _, b := range fn.Blocks {
-			for _, in := range b.Instrs {
-				sl, ok := in.(*ssa.Slice)
-				if !ok {
-					continue
-				}
-				q, isParam := sl.X.(*ssa.Parameter)
-				if !isParam || q == recv {
-					continue
-				}
-				if !((sl.Low != nil && isBS(sl.Low)) || (sl.High != nil && isBS(sl.High))) {
-					continue
-				}
-				k++
-				o := core.Ob{Rule: "R-GUARD", Key: fmt.Sprintf("%s#block-slice%d", core.FnName(fn), k), Pos: c.P.Pos(sl.Pos()), Func: core.FnName(fn), Armed: true, Status: core.OK,
-					Want: "slicing " + q.Name() + " by the block size is covered by a gate on len(" + q.Name() + ") (or on a slice " + q.Name() + " was checked to be at least as long as)"}
-				covered := false
-				for _, g := range gates {
-					if !(g.succ == b || g.succ.Dominates(b)) || len(g.succ.Preds) != 1 {
-						continue
-					}
-					if g.p == q {
-						covered = true
-					}
-					for _, r := range geq {
-						if r.q == q && r.p == g.p && (r.succ == b || r.succ.Dominates(b)) {
-							covered = true
-						}
-					}
-				}
-				if !covered {
-					o.Status, o.Got = core.Violated, "no dominating gate bounds len("+q.Name()+") from below by the block size: a short "+q.Name()+" makes this slice expression panic (or the fast path run on too little input)"
-				}
-				obs = append(obs, o)
+		for _, n := range v.nodes {
+			sl, ok := n.in.(*ssa.Slice)
+			if !ok {
+				continue
 			}
+			q := rootParam(n, sl.X)
+			if q == nil {
+				continue
+			}
+			if !((sl.Low != nil && isBS(n, sl.Low)) || (sl.High != nil && isBS(n, sl.High))) {
+				continue
+			}
+			k++
+			o := core.Ob{Rule: "R-GUARD", Key: fmt.Sprintf("%s#block-slice%d", core.FnName(root), k), Pos: c.P.Pos(sl.Pos()), Func: core.FnName(root), Armed: true, Status: core.OK,
+				Want: "slicing " + q.Name() + " by the block size is covered by a gate on len(" + q.Name() + ") (or on a slice " + q.Name() + " was checked to be at least as long as)"}
+			covered := false
+			if g := gates[q]; len(g) > 0 && !v.reachAvoidingErrAware(v.entry, n.id, g) {
+				covered = true
+			}
+			for r, from := range geq {
+				if r.q != q {
+					continue
+				}
+				if g := gates[r.p]; len(g) > 0 && !v.reachAvoidingErrAware(v.entry, n.id, g) && !v.reachAvoidingErrAware(v.entry, n.id, from) {
+					covered = true
+				}
+			}
+			if !covered {
+				o.Status, o.Got = core.Violated, "some path reaches this slice expression without a gate that bounds len("+q.Name()+") from below by the block size: a short "+q.Name()+" makes it panic (or the fast path run on too little input)"
+			}
+			obs = append(obs, o)
 		}
 	}
 	return obs
@@ -2248,4 +2267,2004 @@ func sameObject(a, b ssa.Value) bool {
 		return addrKey(la.X) == addrKey(lb.X)
 	}
 	return false
+}
+
+// ---------------------------------------------------------------------------
+// T-SCANSTATE[detour-returns]: in the SNBT scanner's state machine (functions
+// stored into the scanner's step field), a state that is entered from exactly
+// one state and continues into exactly one state is a detour (an escape inside
+// a quoted string) and returns to the state it came from: after `\'` inside a
+// single-quoted string the scanner is inside the single-quoted string again.
+
+func (c *Ctx) ScannerDetours(pkg string) []core.Ob {
+	var obs []core.Ob
+	succ := map[*ssa.Function]map[*ssa.Function]bool{}
+	pred := map[*ssa.Function]map[*ssa.Function]bool{}
+	isState := map[*ssa.Function]bool{}
+	for _, fn := range c.Funcs() {
+		if !inPkgs(fn, pkg) {
+			continue
+		}
+		for _, b := range fn.Blocks {
+			for _, in := range b.Instrs {
+				st, ok := in.(*ssa.Store)
+				if !ok {
+					continue
+				}
+				fa, ok := st.Addr.(*ssa.FieldAddr)
+				if !ok {
+					continue
+				}
+				tgt, ok := st.Val.(*ssa.Function)
+				if !ok {
+					continue
+				}
+				stt, ok := deref(fa.X.Type()).Underlying().(*types.Struct)
+				if !ok {
+					continue
+				}
+				if _, isSig := stt.Field(fa.Field).Type().Underlying().(*types.Signature); !isSig {
+					continue
+				}
+				isState[tgt] = true
+				if succ[fn] == nil {
+					succ[fn] = map[*ssa.Function]bool{}
+				}
+				succ[fn][tgt] = true
+				if pred[tgt] == nil {
+					pred[tgt] = map[*ssa.Function]bool{}
+				}
+				pred[tgt][fn] = true
+			}
+		}
+	}
+	// a state that hands the character on to another state function by calling it continues there too
+	var stateSig types.Type
+	for f := range isState {
+		stateSig = f.Signature
+		break
+	}
+	for _, fn := range c.Funcs() {
+		if !inPkgs(fn, pkg) || stateSig == nil || !types.Identical(fn.Signature, stateSig) {
+			continue
+		}
+		for _, b := range fn.Blocks {
+			for _, in := range b.Instrs {
+				if ci, ok := in.(ssa.CallInstruction); ok {
+					if g := ci.Common().StaticCallee(); g != nil && g != fn && types.Identical(g.Signature, stateSig) {
+						if succ[fn] == nil {
+							succ[fn] = map[*ssa.Function]bool{}
+						}
+						succ[fn][g] = true
+					}
+				}
+			}
+		}
+	}
+	var states []*ssa.Function
+	for f := range isState {
+		states = append(states, f)
+	}
+	sort.Slice(states, func(i, j int) bool { return core.FnName(states[i]) < core.FnName(states[j]) })
+	n := 0
+	for _, e := range states {
+		// direct calls of the state function (delegation) count as entries too
+		if len(pred[e]) != 1 || len(succ[e]) != 1 || c.calledDirectly(e) {
+			continue
+		}
+		var p, t *ssa.Function
+		for x := range pred[e] {
+			p = x
+		}
+		for x := range succ[e] {
+			t = x
+		}
+		if !isState[p] {
+			continue
+		}
+		n++
+		o := core.Ob{Rule: "T-SCANSTATE", Key: core.FnName(e) + ":detour-returns", Pos: c.P.Pos(e.Pos()), Func: core.FnName(e), Armed: true, Status: core.OK,
+			Want: "a scanner state entered only from " + p.Name() + " and continuing into a single state returns to " + p.Name()}
+		if t != p {
+			o.Status, o.Got = core.Violated, "continues in "+t.Name()+": after the detour the scanner is in a different construct than before it"
+		}
+		obs = append(obs, o)
+	}
+	obs = append(obs, core.Ob{Rule: "T-SCANSTATE", Key: "scope", Armed: true, Status: core.OK, Want: "the scanner's state functions were found", Got: fmt.Sprintf("%d state functions, %d detours", len(states), n)})
+	if len(states) < 5 {
+		obs[len(obs)-1].Status = core.Violated
+	}
+	return obs
+}
+
+// calledDirectly: some function of the module calls fn by name (not through the step field).
+func (c *Ctx) calledDirectly(fn *ssa.Function) bool {
+	if n := c.P.CallGraph().Nodes[fn]; n != nil {
+		for _, e := range n.In {
+			if e.Site != nil && e.Site.Common().StaticCallee() == fn {
+				return true
+			}
+		}
+	}
+	return false
+}
+
+// ---------------------------------------------------------------------------
+// T-KIND[emptiness-covers]: the emptiness test behind `omitempty` decides every
+// kind the encoder's kind->tag table accepts (other than Struct, which is never
+// empty): a kind it does not mention falls to its default answer "not empty",
+// and zero values of that kind are written although the tag says to omit them.
+
+func (c *Ctx) EmptinessCoversKinds() []core.Ob {
+	o := core.Ob{Rule: "T-KIND", Key: "omitempty:emptiness-covers-encodable-kinds", Armed: true, Status: core.OK,
+		Want: "the emptiness test used for omitempty mentions (in a Kind switch or through CanInt/CanUint/CanFloat) every reflect kind the encoder maps to a tag, Struct excepted"}
+	kinds, _, _, why := c.encoderKindTable()
+	if kinds == nil {
+		o.Status, o.Got = core.Violated, "encoder kind table: "+why
+		return []core.Ob{o}
+	}
+	var fn *ssa.Function
+	if ws := c.encoderDispatch(); ws != nil {
+		fn = c.Fn(ws.fn)
+	}
+	if fn == nil {
+		o.Status, o.Got = core.Violated, "encoder dispatch not found"
+		return []core.Ob{o}
+	}
+	var pred *ssa.Function
+	for _, g := range c.withPkgCallees(fn, 2) {
+		for _, ci := range callsIn(g, func(n string, cc *ssa.CallCommon) bool {
+			sc := cc.StaticCallee()
+			if sc == nil || !inPkgs(sc, "nbt") || len(sc.Params) != 1 || sc.Params[0].Type().String() != "reflect.Value" || sc.Signature.Results().Len() != 1 {
+				return false
+			}
+			b, ok := sc.Signature.Results().At(0).Type().Underlying().(*types.Basic)
+			return ok && b.Kind() == types.Bool
+		}) {
+			pred = ci.Common().StaticCallee()
+		}
+	}
+	if pred == nil {
+		o.Status, o.Got = core.Violated, "no emptiness test (func(reflect.Value) bool) reached from the encoder"
+		return []core.Ob{o}
+	}
+	o.Pos, o.Func = c.P.Pos(pred.Pos()), core.FnName(pred)
+	fd, pk := c.astFuncDecl(pred)
+	if fd == nil {
+		o.Status, o.Got = core.Violated, "no syntax for "+core.FnName(pred)
+		return []core.Ob{o}
+	}
+	seen := map[string]bool{}
+	for _, hb := range c.withHelpers(pk, fd.Body, fd, 1) {
+		for k := range kindsIn(hb.pk.TypesInfo, hb.node) {
+			seen[k] = true
+		}
+		// range tests: k >= reflect.Int && k <= reflect.Int64
+		ast.Inspect(hb.node, func(n ast.Node) bool {
+			be, ok := n.(*ast.BinaryExpr)
+			if !ok || be.Op != token.LAND {
+				return true
+			}
+			lo, hi := int64(-1), int64(-1)
+			for _, side := range []ast.Expr{be.X, be.Y} {
+				r, ok := ast.Unparen(side).(*ast.BinaryExpr)
+				if !ok {
+					continue
+				}
+				for _, pr := range [][2]ast.Expr{{r.X, r.Y}, {r.Y, r.X}} {
+					if _, isKind := reflectKindName(hb.pk.TypesInfo, pr[1]); !isKind {
+						continue
+					}
+					tv, ok := hb.pk.TypesInfo.Types[pr[1]]
+					if !ok || tv.Value == nil {
+						continue
+					}
+					kv, _ := constant.Int64Val(tv.Value)
+					op := r.Op
+					if pr[0] == r.Y { // const on the left: flip
+						switch op {
+						case token.LSS:
+							op = token.GTR
+						case token.LEQ:
+							op = token.GEQ
+						case token.GTR:
+							op = token.LSS
+						case token.GEQ:
+							op = token.LEQ
+						}
+					}
+					switch op {
+					case token.GEQ:
+						lo = kv
+					case token.GTR:
+						lo = kv + 1
+					case token.LEQ:
+						hi = kv
+					case token.LSS:
+						hi = kv - 1
+					}
+				}
+			}
+			if lo >= 0 && hi >= lo {
+				for kname := range kinds {
+					if kv, ok := reflectKindValue[kname]; ok && kv >= lo && kv <= hi {
+						seen[kname] = true
+					}
+				}
+			}
+			return true
+		})
+		ast.Inspect(hb.node, func(n ast.Node) bool {
+			call, ok := n.(*ast.CallExpr)
+			if !ok {
+				return true
+			}
+			if fo := calleeObj(hb.pk.TypesInfo, call); fo != nil && fo.Pkg() != nil && fo.Pkg().Path() == "reflect" {
+				switch fo.Name() {
+				case "CanInt":
+					for _, k := range []string{"Int", "Int8", "Int16", "Int32", "Int64"} {
+						seen[k] = true
+					}
+				case "CanUint":
+					for _, k := range []string{"Uint", "Uint8", "Uint16", "Uint32", "Uint64", "Uintptr"} {
+						seen[k] = true
+					}
+				case "CanFloat":
+					seen["Float32"], seen["Float64"] = true, true
+				case "IsZero":
+					for k := range kinds {
+						seen[k] = true
+					}
+				}
+			}
+			return true
+		})
+	}
+	var missing []string
+	for k := range kinds {
+		if k != "Struct" && !seen[k] {
+			missing = append(missing, k)
+		}
+	}
+	sort.Strings(missing)
+	if len(missing) > 0 {
+		o.Status, o.Got = core.Violated, "not decided for kind(s) "+strings.Join(missing, ", ")+": their zero values are never omitted"
+	}
+	return []core.Ob{o}
+}
+
+// ---------------------------------------------------------------------------
+// T-BITFIELD[group-order]: where a word is assembled from 7-bit groups of one
+// value ((x>>s)&0x7F, possibly |0x80) shifted to byte positions, the groups
+// appear in the word in the order LEB128 prescribes for a big-endian store:
+// the group with source shift s = 7j sits at destination shift 8*(W-1-j) for a
+// word of W groups. Two groups with exchanged byte positions keep every range
+// disjoint and every length right, and decode to a different number.
+
+type groupTerm struct {
+	src, dst int64
+	base     ssa.Value
+}
+
+func groupOf(v ssa.Value) (groupTerm, bool) {
+	g := groupTerm{}
+	v = stripConv(v)
+	if sh, ok := v.(*ssa.BinOp); ok && sh.Op == token.SHL {
+		k, isK := constIntVal(sh.Y)
+		if !isK {
+			return g, false
+		}
+		g.dst = k
+		v = stripConv(sh.X)
+	}
+	// optional | 0x80
+	if or, ok := v.(*ssa.BinOp); ok && or.Op == token.OR {
+		if k, isK := constIntVal(or.Y); isK && k == 0x80 {
+			v = stripConv(or.X)
+		} else if k, isK := constIntVal(or.X); isK && k == 0x80 {
+			v = stripConv(or.Y)
+		} else {
+			return g, false
+		}
+	}
+	// optional & 0x7F
+	if and, ok := v.(*ssa.BinOp); ok && and.Op == token.AND {
+		if k, isK := constIntVal(and.Y); isK && k == 0x7F {
+			v = stripConv(and.X)
+		} else {
+			return g, false
+		}
+	}
+	if sh, ok := v.(*ssa.BinOp); ok && sh.Op == token.SHR {
+		k, isK := constIntVal(sh.Y)
+		if !isK || k%7 != 0 {
+			return g, false
+		}
+		g.src = k
+		v = stripConv(sh.X)
+	}
+	g.base = v
+	return g, true
+}
+
+func (c *Ctx) GroupOrder(pkgs ...string) []core.Ob {
+	var obs []core.Ob
+	for _, fn := range c.Funcs() {
+		if !inPkgs(fn, pkgs...) {
+			continue
+		}
+		k := 0
+		for _, b := range fn.Blocks {
+			for _, in := range b.Instrs {
+				or, ok := in.(*ssa.BinOp)
+				if !ok || or.Op != token.OR {
+					continue
+				}
+				isRoot := true
+				if refs := or.Referrers(); refs != nil {
+					for _, r := range *refs {
+						if p, ok := r.(*ssa.BinOp); ok && p.Op == token.OR {
+							isRoot = false
+						}
+						// the OR with the continuation bit inside one group is not a word
+						if p, ok := r.(*ssa.BinOp); ok && p.Op == token.SHL {
+							isRoot = false
+						}
+					}
+				}
+				if !isRoot {
+					continue
+				}
+				var terms []ssa.Value
+				topTerms(or, &terms)
+				if len(terms) < 2 {
+					continue
+				}
+				var gs []groupTerm
+				okAll := true
+				for _, t := range terms {
+					g, ok := groupOf(t)
+					if !ok || (len(gs) > 0 && g.base != gs[0].base) {
+						okAll = false
+						break
+					}
+					gs = append(gs, g)
+				}
+				if !okAll {
+					continue
+				}
+				// is this really a split into 7-bit groups? distinct source shifts that are multiples of 7
+				srcs := map[int64]bool{}
+				for _, g := range gs {
+					srcs[g.src] = true
+				}
+				if len(srcs) != len(gs) {
+					continue
+				}
+				k++
+				o := core.Ob{Rule: "T-BITFIELD", Key: fmt.Sprintf("%s#groups%d", core.FnName(fn), k), Pos: c.P.Pos(or.Pos()), Func: core.FnName(fn), Armed: true, Status: core.OK,
+					Want: "the 7-bit group taken at source shift 7j is stored at byte W-1-j of the W-byte big-endian word (least significant group first on the wire)"}
+				w := int64(len(gs))
+				var bad []string
+				for _, g := range gs {
+					want := 8 * (w - 1 - g.src/7)
+					if g.dst != want {
+						bad = append(bad, fmt.Sprintf("group >>%d at <<%d (want <<%d)", g.src, g.dst, want))
+					}
+				}
+				if len(bad) > 0 {
+					sort.Strings(bad)
+					o.Status, o.Got = core.Violated, strings.Join(bad, ", ")
+				}
+				obs = append(obs, o)
+			}
+		}
+	}
+	return obs
+}
+
+// topTerms: the operands of an OR tree, not descending into an OR that only adds the constant 0x80 (a group's continuation bit).
+func topTerms(v ssa.Value, out *[]ssa.Value) {
+	if bo, ok := v.(*ssa.BinOp); ok && bo.Op == token.OR {
+		if k, isK := constIntVal(bo.Y); isK && k == 0x80 {
+			*out = append(*out, v)
+			return
+		}
+		topTerms(bo.X, out)
+		topTerms(bo.Y, out)
+		return
+	}
+	*out = append(*out, v)
+}
+
+// ---------------------------------------------------------------------------
+// T-CONNINIT: every place in package net that builds a Conn around a socket
+// (a composite literal that sets Socket) gives the reader and the writer side
+// that very socket - no buffering layer in between, SetCipher later wraps the
+// socket itself and whatever a buffer already holds would be lost - and starts
+// with threshold -1 (compression off until the peer says otherwise).
+
+func (c *Ctx) ConnInit() []core.Ob {
+	var obs []core.Ob
+	n := 0
+	ifaceOrigin := func(v ssa.Value) ssa.Value {
+		for {
+			switch x := v.(type) {
+			case *ssa.MakeInterface:
+				v = x.X
+				continue
+			case *ssa.ChangeInterface:
+				v = x.X
+				continue
+			}
+			return v
+		}
+	}
+	for _, fn := range c.Funcs() {
+		if !inPkgs(fn, "net") {
+			continue
+		}
+		k := 0
+		for _, b := range fn.Blocks {
+			for _, in := range b.Instrs {
+				al, ok := in.(*ssa.Alloc)
+				if !ok {
+					continue
+				}
+				named, ok := types.Unalias(deref(al.Type())).(*types.Named)
+				if !ok || named.Obj().Name() != "Conn" || named.Obj().Pkg() == nil || core.Rel(named.Obj().Pkg().Path()) != "net" {
+					continue
+				}
+				st, ok := named.Underlying().(*types.Struct)
+				if !ok || al.Referrers() == nil {
+					continue
+				}
+				fields := map[string]ssa.Value{}
+				for _, r := range *al.Referrers() {
+					fa, ok := r.(*ssa.FieldAddr)
+					if !ok || fa.Referrers() == nil {
+						continue
+					}
+					for _, u := range *fa.Referrers() {
+						if s, ok := u.(*ssa.Store); ok && s.Addr == ssa.Value(fa) {
+							fields[st.Field(fa.Field).Name()] = s.Val
+						}
+					}
+				}
+				sock, has := fields["Socket"]
+				if !has {
+					continue
+				}
+				n++
+				k++
+				o := core.Ob{Rule: "T-CONNINIT", Key: fmt.Sprintf("%s#Conn%d", core.FnName(fn), k), Pos: c.P.Pos(al.Pos()), Func: core.FnName(fn), Armed: true, Status: core.OK,
+					Want: "a Conn built around a socket reads from and writes to that socket directly and starts with threshold -1"}
+				var bad []string
+				for _, side := range []string{"Reader", "Writer"} {
+					if v, ok := fields[side]; !ok {
+						bad = append(bad, side+" not set")
+					} else if ifaceOrigin(v) != ifaceOrigin(sock) {
+						bad = append(bad, side+" is not the socket itself (a layer in between keeps bytes that SetCipher, which wraps the socket, never sees)")
+					}
+				}
+				if v, ok := fields["threshold"]; !ok {
+					bad = append(bad, "threshold not set (0: every frame is in the compressed format)")
+				} else if kv, isK := constIntVal(v); !isK || kv != -1 {
+					bad = append(bad, "threshold is not the constant -1")
+				}
+				if len(bad) > 0 {
+					o.Status, o.Got = core.Violated, strings.Join(bad, "; ")
+				}
+				obs = append(obs, o)
+			}
+		}
+	}
+	s := core.Ob{Rule: "T-CONNINIT", Key: "count", Armed: true, Status: core.OK, Want: "some function of package net builds a Conn around a socket", Got: fmt.Sprintf("%d", n)}
+	if n < 1 {
+		s.Status = core.Violated
+	}
+	return append(obs, s)
+}
+
+// ---------------------------------------------------------------------------
+// T-BSINV: the width recovered from (number of values, number of longs) packs
+// as many values into a long as the width the longs were sized for. Both
+// functions are pure integer code; their skeletons are evaluated (Appendix D)
+// for the two container sizes in use (64 biomes, 4096 block states) and every
+// width an indirect palette of that many values can have (1..6, 1..12): calcBitsPerValue(n, calcBitStorageSize(b, n)) must have the same
+// values-per-long as b. (Necessary for reading saved data back with the layout
+// it was written with; the stride itself is not recoverable for widths that
+// share a values-per-long count and is not demanded.)
+
+func (c *Ctx) BitWidthInverse() []core.Ob {
+	var obs []core.Ob
+	size := c.Fn("level.calcBitStorageSize")
+	var inv *ssa.Function
+	// the inverse: the function of package level with two int parameters and an int result that the
+	// WithData constructors call (found through them, not by name)
+	for _, ctor := range []string{"level.NewStatesPaletteContainerWithData", "level.NewBiomesPaletteContainerWithData"} {
+		if f := c.Fn(ctor); f != nil {
+			for _, ci := range callsIn(f, func(_ string, cc *ssa.CallCommon) bool {
+				g := cc.StaticCallee()
+				return g != nil && inPkgs(g, "level") && g != size && g.Signature.Params().Len() == 2 && g.Signature.Results().Len() == 1 && g.Signature.Recv() == nil &&
+					types.Identical(g.Signature.Results().At(0).Type(), types.Typ[types.Int]) && types.Identical(g.Signature.Params().At(0).Type(), types.Typ[types.Int])
+			}) {
+				inv = ci.Common().StaticCallee()
+			}
+		}
+	}
+	if size == nil || inv == nil {
+		return []core.Ob{{Rule: "T-BSINV", Key: "anchors", Armed: true, Status: core.Violated, Want: "the storage size function and the width recovery used by the WithData constructors exist", Got: "not found"}}
+	}
+	sizes := c.TLG().sizesOf(size)
+	for _, n := range []int64{64, 4096} {
+		// the widths saved data can have: an indirect palette of a container of n values has at most n entries
+		maxBits := int64(bitLen(n - 1))
+		for b := int64(1); b <= maxBits; b++ {
+			o := core.Ob{Rule: "T-BSINV", Key: fmt.Sprintf("values=%d:bits=%d", n, b), Pos: c.P.Pos(inv.Pos()), Func: core.FnName(inv), Armed: true, Status: core.OK,
+				Want: fmt.Sprintf("%s(%d, %s(%d, %d)) packs as many values per long as %d bits do", inv.Name(), n, size.Name(), b, n, b)}
+			ev := &skelEval{c: c, sizes: sizes}
+			longs, err := ev.run(size, []*big.Int{bi(b), bi(n)})
+			if err != nil || longs == nil {
+				o.Status, o.Got = core.Violated, fmt.Sprintf("%s(%d, %d) cannot be evaluated: %v", size.Name(), b, n, err)
+				obs = append(obs, o)
+				continue
+			}
+			ev2 := &skelEval{c: c, sizes: sizes}
+			got, err := ev2.run(inv, []*big.Int{bi(n), longs})
+			switch {
+			case err != nil || got == nil:
+				o.Status, o.Got = core.Violated, fmt.Sprintf("%s(%d, %s) cannot be evaluated: %v", inv.Name(), n, longs, err)
+			case got.Sign() <= 0 || got.Cmp(bi(64)) > 0:
+				o.Status, o.Got = core.Violated, fmt.Sprintf("%s longs of %d-bit values are taken for %s-bit values", longs, b, got)
+			case 64/got.Int64() != 64/b:
+				o.Status, o.Got = core.Violated, fmt.Sprintf("%s longs holding %d values of %d bits (%d per long) are read back as %s-bit values (%d per long)", longs, n, b, 64/b, got, 64/got.Int64())
+			default:
+				o.Got = fmt.Sprintf("%s longs -> %s bits", longs, got)
+			}
+			obs = append(obs, o)
+		}
+	}
+	return obs
+}
+
+// ---------------------------------------------------------------------------
+// R-ORDER[bitstorage-read:exact-length]: BitStorage.ReadFrom gives the packed
+// array exactly the announced length on every path before it reads the longs
+// into it (a make or a re-slice stored into the field). A buffer that is only
+// ever grown keeps stale longs behind a shorter wire form, and Fix then judges
+// the length of the old contents.
+
+func (c *Ctx) BitStorageReadLength() []core.Ob {
+	o := core.Ob{Rule: "R-ORDER", Key: "bitstorage-read:exact-length", Armed: true, Status: core.OK,
+		Want: "on every path from the entry of BitStorage.ReadFrom to its element loop the packed array field is assigned (make or re-slice to the announced length)"}
+	fn := c.Fn("level.(*BitStorage).ReadFrom")
+	lay := c.bitStorageLayout()
+	if fn == nil || lay.data == "" {
+		o.Status, o.Got = core.Violated, "level.(*BitStorage).ReadFrom or the packed array field not found"
+		return []core.Ob{o}
+	}
+	o.Pos, o.Func = c.P.Pos(fn.Pos()), core.FnName(fn)
+	v := c.inlineView(fn, 1)
+	var stores []int
+	for _, n := range v.nodes {
+		if st, ok := n.in.(*ssa.Store); ok && v.recvField(n, st.Addr) == lay.data {
+			// the stored value is sized by something decoded here: make(_, n) or x[:n]
+			switch x := st.Val.(type) {
+			case *ssa.MakeSlice:
+				stores = append(stores, n.id)
+			case *ssa.Slice:
+				if x.High != nil {
+					stores = append(stores, n.id)
+				}
+			case *ssa.Call:
+				stores = append(stores, n.id)
+			}
+		}
+	}
+	// the element reads: stream reads inside a loop (of ReadFrom itself or of a helper it was moved to),
+	// or one bulk binary.Read
+	found := false
+	loopBlocks := map[*ssa.Function]map[*ssa.BasicBlock]bool{}
+	inLoop := func(f *ssa.Function, b *ssa.BasicBlock) bool {
+		if loopBlocks[f] == nil {
+			loopBlocks[f] = map[*ssa.BasicBlock]bool{}
+			for _, lp := range naturalLoops(f) {
+				for x := range lp.body {
+					loopBlocks[f][x] = true
+				}
+			}
+		}
+		return loopBlocks[f][b]
+	}
+	for _, n := range v.nodes {
+		ci, ok := n.in.(ssa.CallInstruction)
+		if !ok {
+			continue
+		}
+		nm := calleeName(ci.Common())
+		isRead := strings.HasSuffix(nm, ".ReadFrom") || nm == "io.ReadFull"
+		if nm == "encoding/binary.Read" {
+			// a bulk read into the packed array
+			isRead = true
+		} else if !inLoop(n.frame.fn, n.in.Block()) {
+			isRead = false
+		}
+		if !isRead {
+			continue
+		}
+		// (reads nested inside an inlined reader of one element are covered by the outer one)
+		if n.frame.depth > 1 {
+			continue
+		}
+		found = true
+		if len(stores) == 0 || v.reachAvoidingErrAware(v.entry, n.id, stores) {
+			o.Status, o.Got = core.Violated, "the element read at "+c.P.Pos(n.in.Pos())+" is reachable without the packed array having been given the announced length: longs of an earlier, longer decode stay behind the new ones"
+		}
+	}
+	if !found {
+		o.Status, o.Got = core.Violated, "no element read found in BitStorage.ReadFrom"
+	}
+	return []core.Ob{o}
+}
+
+// ---------------------------------------------------------------------------
+// T-REGIDX[slot-offsets]: the header writer puts the location word at byte
+// 4*(32*major+minor) and the timestamp at 4096 + 4*(32*major+minor). The
+// offsets it passes to its positioned writes are obtained by evaluating its
+// integer skeleton (Appendix D) for a few coordinates.
+
+func (c *Ctx) RegionSlotOffsets() []core.Ob {
+	o := core.Ob{Rule: "T-REGIDX", Key: "setHead:slot-offsets", Armed: true, Status: core.OK,
+		Want: "for chunk (x, z) the header writer writes at 4*(32*z+x) (location) and at 4096+4*(32*z+x) (timestamp)"}
+	sh := c.regionHeaderWriter()
+	if sh == nil {
+		o.Status, o.Got = core.Violated, "header writer not found"
+		return []core.Ob{o}
+	}
+	o.Pos, o.Func = c.P.Pos(sh.Pos()), core.FnName(sh)
+	// which parameter is multiplied by 32
+	major, minor := -1, -1
+	for _, b := range sh.Blocks {
+		for _, in := range b.Instrs {
+			if bo, ok := in.(*ssa.BinOp); ok && bo.Op == token.MUL {
+				for _, pr := range [][2]ssa.Value{{bo.X, bo.Y}, {bo.Y, bo.X}} {
+					if k, ok := constIntVal(pr[1]); ok && k == 32 {
+						for i, p := range sh.Params {
+							if stripConv(pr[0]) == ssa.Value(p) {
+								major = i
+							}
+						}
+					}
+				}
+			}
+		}
+	}
+	for i := 1; i < len(sh.Params); i++ {
+		if i != major {
+			if b, ok := sh.Params[i].Type().Underlying().(*types.Basic); ok && b.Kind() == types.Int {
+				minor = i
+				break
+			}
+		}
+	}
+	if major < 1 || minor < 1 {
+		o.Status, o.Got = core.Violated, "coordinates of the header writer not identified"
+		return []core.Ob{o}
+	}
+	sizes := c.TLG().sizesOf(sh)
+	for _, pr := range [][2]int64{{0, 0}, {1, 0}, {0, 1}, {5, 7}, {31, 31}} {
+		ev := &skelEval{c: c, sizes: sizes}
+		got := map[string]bool{}
+		ev.onInstr = func(in ssa.Instruction, get func(ssa.Value) *big.Int) {
+			ci, ok := in.(ssa.CallInstruction)
+			if !ok {
+				return
+			}
+			nm := calleeName(ci.Common())
+			if !(strings.HasSuffix(nm, "riteAt") || strings.HasSuffix(nm, ".Seek")) {
+				return
+			}
+			for _, a := range ci.Common().Args {
+				if bt, ok := a.Type().Underlying().(*types.Basic); ok && bt.Kind() == types.Int64 {
+					if v := get(a); v != nil {
+						got[v.String()] = true
+					} else {
+						got["?"] = true
+					}
+				}
+			}
+		}
+		// follow the path on which every write succeeds
+		ev.preset = map[ssa.Value]*big.Int{}
+		for _, b := range sh.Blocks {
+			for _, in := range b.Instrs {
+				if cmp, ok := in.(*ssa.BinOp); ok && (isNilConst(cmp.X) || isNilConst(cmp.Y)) {
+					if cmp.Op == token.NEQ {
+						ev.preset[cmp] = bi(0)
+					} else if cmp.Op == token.EQL {
+						ev.preset[cmp] = bi(1)
+					}
+				}
+			}
+		}
+		args := make([]*big.Int, len(sh.Params))
+		args[major], args[minor] = bi(pr[0]), bi(pr[1])
+		_, _ = ev.run(sh, args)
+		w1 := 4 * (32*pr[0] + pr[1])
+		want := map[string]bool{fmt.Sprint(w1): true, fmt.Sprint(4096 + w1): true}
+		// (a Seek with whence 0 also passes the constant 0 as an int: only int64 arguments were collected)
+		ok := len(got) == len(want)
+		for k := range want {
+			ok = ok && got[k]
+		}
+		if !ok {
+			var gs []string
+			for k := range got {
+				gs = append(gs, k)
+			}
+			sort.Strings(gs)
+			o.Status = core.Violated
+			o.Got = fmt.Sprintf("for (major, minor) = (%d, %d) the positioned writes go to offsets {%s}, want {%d, %d}", pr[0], pr[1], strings.Join(gs, ", "), w1, 4096+w1)
+			break
+		}
+	}
+	return []core.Ob{o}
+}
+
+// ---------------------------------------------------------------------------
+// R-ORDER[table-loop-covers]: a counting loop that indexes one of the region's
+// fixed-size tables with its counter runs over the whole dimension (its bound is
+// the array length): a scan that stops one short leaves the last row or column
+// out of the occupancy map.
+
+func (c *Ctx) TableLoopsCover(pkg string) []core.Ob {
+	var obs []core.Ob
+	for _, fn := range c.Funcs() {
+		if !inPkgs(fn, pkg) {
+			continue
+		}
+		k := 0
+		for _, lp := range naturalLoops(fn) {
+			iff, ok := lp.header.Instrs[len(lp.header.Instrs)-1].(*ssa.If)
+			if !ok {
+				continue
+			}
+			cmp, ok := iff.Cond.(*ssa.BinOp)
+			if !ok || cmp.Op != token.LSS {
+				continue
+			}
+			bound, isK := constIntVal(cmp.Y)
+			phi, isPhi := stripConv(cmp.X).(*ssa.Phi)
+			if !isK || !isPhi || !isCounterPhi(phi) {
+				continue
+			}
+			// arrays indexed by the counter inside the loop
+			for b := range lp.body {
+				for _, in := range b.Instrs {
+					ia, ok := in.(*ssa.IndexAddr)
+					if !ok || stripConv(ia.Index) != ssa.Value(phi) {
+						continue
+					}
+					at, ok := deref(ia.X.Type()).Underlying().(*types.Array)
+					if !ok {
+						continue
+					}
+					k++
+					o := core.Ob{Rule: "R-ORDER", Key: fmt.Sprintf("table-loop-covers:%s#%d", core.FnName(fn), k), Pos: c.P.Pos(ia.Pos()), Func: core.FnName(fn), Armed: true, Status: core.OK,
+						Want: fmt.Sprintf("the loop that indexes this [%d]-element table with its counter counts up to %d", at.Len(), at.Len())}
+					if bound != at.Len() {
+						o.Status, o.Got = core.Violated, fmt.Sprintf("the loop stops at %d: entries %d..%d are never visited", bound, bound, at.Len()-1)
+					}
+					obs = append(obs, o)
+				}
+			}
+		}
+	}
+	return obs
+}
+
+// ---------------------------------------------------------------------------
+// R-TRUNC[signed-narrowing]: unpacking a field of a packed word by converting
+// to a narrower SIGNED type (int8(x), int16(x)) sign-extends when the result is
+// widened again: a byte-sized count of 128..255 comes out negative. Such a
+// conversion is accepted only where the interval analysis bounds the operand
+// inside the narrow type.
+
+func (c *Ctx) SignedNarrowing(pkgs ...string) []core.Ob {
+	var obs []core.Ob
+	t := c.TLG()
+	n := 0
+	for _, fn := range c.Funcs() {
+		if !inPkgs(fn, pkgs...) {
+			continue
+		}
+		var sites []*ssa.Convert
+		for _, b := range fn.Blocks {
+			for _, in := range b.Instrs {
+				cv, ok := in.(*ssa.Convert)
+				if !ok {
+					continue
+				}
+				db, sg := typeBits(cv.Type())
+				sb, _ := typeBits(cv.X.Type())
+				dt, ok1 := cv.Type().Underlying().(*types.Basic)
+				st, ok2 := cv.X.Type().Underlying().(*types.Basic)
+				if !ok1 || !ok2 || dt.Info()&types.IsInteger == 0 || st.Info()&types.IsInteger == 0 {
+					continue
+				}
+				if !sg || db >= sb || db > 16 {
+					continue
+				}
+				if _, isK := cv.X.(*ssa.Const); isK {
+					continue
+				}
+				sites = append(sites, cv)
+			}
+		}
+		if len(sites) == 0 {
+			continue
+		}
+		k := 0
+		done := map[*ssa.Convert]int{}
+		t.Probe(fn, func(in ssa.Instruction, eval func(ssa.Value) AV, _ func(string) (AV, bool)) {
+			cv, ok := in.(*ssa.Convert)
+			if !ok {
+				return
+			}
+			isSite := false
+			for _, s := range sites {
+				isSite = isSite || s == cv
+			}
+			if !isSite {
+				return
+			}
+			db, _ := typeBits(cv.Type())
+			lim := int64(1)<<uint(db-1) - 1
+			all := eval(cv.X).all()
+			fits := all != nil && all.Lo != nil && all.Hi != nil && all.Lo.Cmp(bi(-lim-1)) >= 0 && all.Hi.Cmp(bi(lim)) <= 0
+			o := core.Ob{Rule: "R-TRUNC", Pos: c.P.Pos(cv.Pos()), Func: core.FnName(fn), Armed: true, Status: core.OK,
+				Want: fmt.Sprintf("a conversion to the narrower signed %s is applied only to a value known to fit it (no sign flip of a field taken from a packed word)", cv.Type())}
+			if !fits {
+				o.Status, o.Got = core.Violated, "operand only known to be "+eval(cv.X).String()+": values with the top bit of the narrow type set turn negative"
+			}
+			if idx, seen := done[cv]; seen {
+				o.Key = obs[idx].Key
+				obs[idx] = o
+				return
+			}
+			k++
+			n++
+			o.Key = fmt.Sprintf("%s#signed-narrowing%d", core.FnName(fn), k)
+			done[cv] = len(obs)
+			obs = append(obs, o)
+		})
+	}
+	obs = append(obs, core.Ob{Rule: "R-TRUNC", Key: "scope:signed-narrowing", Armed: true, Status: core.OK, Want: "conversions to int8/int16 from wider integers were looked at", Got: fmt.Sprintf("%d in %s", n, strings.Join(pkgs, ","))})
+	return obs
+}
+
+// ---------------------------------------------------------------------------
+// R-INITORDER: a package-level variable's initialiser does not read a
+// package-level map or slice of the same package that is only filled in an
+// init() function: variable initialisers run before every init(), so the read
+// sees the empty container (all lookups give the zero value).
+
+func (c *Ctx) InitOrder(pkgs ...string) []core.Ob {
+	var obs []core.Ob
+	nInit := 0
+	for _, pk := range c.P.Pkgs {
+		rel := core.Rel(pk.PkgPath)
+		in := false
+		for _, p := range pkgs {
+			in = in || rel == p
+		}
+		if !in {
+			continue
+		}
+		sp := c.P.SSA.Package(pk.Types)
+		if sp == nil {
+			continue
+		}
+		initFn := sp.Func("init")
+		if initFn == nil || len(initFn.Blocks) == 0 {
+			continue
+		}
+		nInit++
+		// globals written by the variable initialisers themselves (the synthetic init, before the init#k calls)
+		// and globals filled only inside init#k functions
+		filledInInit := map[*ssa.Global]bool{}
+		for name, m := range sp.Members {
+			f, ok := m.(*ssa.Function)
+			if !ok || !strings.HasPrefix(name, "init#") {
+				continue
+			}
+			for _, g := range c.withPkgCallees(f, 2) {
+				for _, b := range g.Blocks {
+					for _, in := range b.Instrs {
+						switch x := in.(type) {
+						case *ssa.Store:
+							if gl, ok := x.Addr.(*ssa.Global); ok {
+								filledInInit[gl] = true
+							}
+						case *ssa.MapUpdate:
+							if ld, ok := x.Map.(*ssa.UnOp); ok {
+								if gl, ok := ld.X.(*ssa.Global); ok {
+									filledInInit[gl] = true
+								}
+							}
+						}
+					}
+				}
+			}
+		}
+		initialised := map[*ssa.Global]bool{}
+		k := 0
+		for _, b := range initFn.Blocks {
+			for _, in := range b.Instrs {
+				switch x := in.(type) {
+				case *ssa.Store:
+					if gl, ok := x.Addr.(*ssa.Global); ok {
+						initialised[gl] = true
+					}
+				case *ssa.Lookup:
+					ld, ok := x.X.(*ssa.UnOp)
+					if !ok {
+						continue
+					}
+					gl, ok := ld.X.(*ssa.Global)
+					if !ok || gl.Pkg != sp {
+						continue
+					}
+					k++
+					o := core.Ob{Rule: "R-INITORDER", Key: fmt.Sprintf("%s#lookup%d:%s", rel, k, gl.Name()), Pos: c.P.Pos(x.Pos()), Armed: true, Status: core.OK,
+						Want: "a variable initialiser reads " + gl.Name() + " only if its own initialiser has filled it (init() functions run later)"}
+					if !initialised[gl] && filledInInit[gl] {
+						o.Status, o.Got = core.Violated, gl.Name()+" is filled in an init() function, which runs after every variable initialiser: this lookup sees an empty map and yields the zero value"
+					}
+					obs = append(obs, o)
+				}
+			}
+		}
+	}
+	obs = append(obs, core.Ob{Rule: "R-INITORDER", Key: "scope", Armed: true, Status: core.OK, Want: "package initialisers were looked at", Got: fmt.Sprintf("%d packages with initialisers", nInit)})
+	return obs
+}
+
+// ---------------------------------------------------------------------------
+// T-PALCFG[resize-width]: the container the palette resize builds records, as
+// its bits-per-entry (the byte WriteTo sends), the very width it asked its
+// configuration to create the new palette for.
+
+func (c *Ctx) ResizeWidth() []core.Ob {
+	o := core.Ob{Rule: "T-PALCFG", Key: "resize:recorded-width-is-created-width", Armed: true, Status: core.OK,
+		Want: "in the resize, the width stored in the new container is the same value the new palette was created for (config.create(w))"}
+	set := c.Fn("level.(*PaletteContainer).Set")
+	if set == nil {
+		o.Status, o.Got = core.Violated, "level.(*PaletteContainer).Set not found"
+		return []core.Ob{o}
+	}
+	n := 0
+	for _, fn := range c.withPkgCallees(set, 1) {
+		for _, b := range fn.Blocks {
+			for _, in := range b.Instrs {
+				st, ok := in.(*ssa.Store)
+				if !ok {
+					continue
+				}
+				fa, ok := st.Addr.(*ssa.FieldAddr)
+				if !ok {
+					continue
+				}
+				al, ok := fa.X.(*ssa.Alloc)
+				if !ok {
+					continue
+				}
+				stt, ok := deref(al.Type()).Underlying().(*types.Struct)
+				if !ok || !types.Identical(st.Val.Type(), types.Typ[types.Int]) {
+					continue
+				}
+				// the created palette stored into the same literal
+				var created ssa.Value
+				if al.Referrers() != nil {
+					for _, r := range *al.Referrers() {
+						fa2, ok := r.(*ssa.FieldAddr)
+						if !ok || fa2.Referrers() == nil {
+							continue
+						}
+						for _, u := range *fa2.Referrers() {
+							st2, ok := u.(*ssa.Store)
+							if !ok {
+								continue
+							}
+							if cl, ok := st2.Val.(*ssa.Call); ok && cl.Common().IsInvoke() && len(cl.Common().Args) == 1 && types.Identical(cl.Common().Args[0].Type(), types.Typ[types.Int]) {
+								if _, isIface := cl.Type().Underlying().(*types.Interface); isIface {
+									created = cl.Common().Args[0]
+								}
+							}
+						}
+					}
+				}
+				if created == nil {
+					continue
+				}
+				n++
+				o.Pos, o.Func = c.P.Pos(st.Pos()), core.FnName(fn)
+				if st.Val != created {
+					o.Status, o.Got = core.Violated, fmt.Sprintf("field %s is given %s, the palette is created for %s", stt.Field(fa.Field).Name(), st.Val.Name(), created.Name())
+				}
+			}
+		}
+	}
+	if n == 0 {
+		o.Status, o.Got = core.Violated, "no container literal with a created palette and a recorded width found in the resize"
+	}
+	return []core.Ob{o}
+}
+
+// ---------------------------------------------------------------------------
+// R-GUARD[string-index-var]: s[e] with a computed index on a string is proven
+// in bounds by the interval analysis (0 <= e < len(s) from the comparisons on
+// the path). Hand-written scanners over peer-supplied text index one past the
+// end when the end test is off by one.
+
+func (c *Ctx) StringVarIndexGuards(include func(*ssa.Function) bool) []core.Ob {
+	var obs []core.Ob
+	t := c.TLG()
+	for _, fn := range c.Funcs() {
+		if !include(fn) {
+			continue
+		}
+		var sites []*ssa.Index
+		for _, b := range fn.Blocks {
+			for _, in := range b.Instrs {
+				ix, ok := in.(*ssa.Index)
+				if !ok {
+					continue
+				}
+				if bt, ok := ix.X.Type().Underlying().(*types.Basic); !ok || bt.Info()&types.IsString == 0 {
+					continue
+				}
+				if _, isK := constIntVal(ix.Index); isK {
+					continue
+				}
+				sites = append(sites, ix)
+			}
+		}
+		if len(sites) == 0 {
+			continue
+		}
+		idxOf := map[*ssa.Index]int{}
+		k := 0
+		t.Probe(fn, func(in ssa.Instruction, _ func(ssa.Value) AV, _ func(string) (AV, bool)) {
+			ix, ok := in.(*ssa.Index)
+			if !ok {
+				return
+			}
+			isSite := false
+			for _, s := range sites {
+				isSite = isSite || s == ix
+			}
+			if !isSite {
+				return
+			}
+			o := core.Ob{Rule: "R-GUARD", Pos: c.P.Pos(ix.Pos()), Func: core.FnName(fn), Armed: true, Status: core.OK,
+				Want: "the computed index into the string is proven to lie in [0, len) on every path"}
+			if ok, why := t.ProbeIndexInBounds(ix.Index, ix.X); !ok {
+				o.Status, o.Got = core.Violated, why
+			}
+			if i, seen := idxOf[ix]; seen {
+				o.Key = obs[i].Key
+				obs[i] = o
+				return
+			}
+			k++
+			o.Key = fmt.Sprintf("%s#string-index-var%d", core.FnName(fn), k)
+			idxOf[ix] = len(obs)
+			obs = append(obs, o)
+		})
+	}
+	return obs
+}
+
+// ---------------------------------------------------------------------------
+// T-TAGS[converted-structs]: struct types that the package converts into one
+// another (T2(v): identical fields, tags ignored by the conversion) name every
+// field by the same key in each codec (`json:"k,..."`, `nbt:"k,..."`). The
+// conversion exists to switch options (omitempty), not keys: a key spelled
+// differently in one variant is written under a name no reader looks for.
+
+func (c *Ctx) ConvertedStructTags(pkgs ...string) []core.Ob {
+	var obs []core.Ob
+	type pair struct{ a, b *types.Named }
+	seen := map[[2]string]bool{}
+	var pairs []pair
+	for _, fn := range c.Funcs() {
+		if !inPkgs(fn, pkgs...) {
+			continue
+		}
+		for _, b := range fn.Blocks {
+			for _, in := range b.Instrs {
+				ct, ok := in.(*ssa.ChangeType)
+				if !ok {
+					continue
+				}
+				from, ok1 := types.Unalias(deref(ct.X.Type())).(*types.Named)
+				to, ok2 := types.Unalias(deref(ct.Type())).(*types.Named)
+				if !ok1 || !ok2 || from == to {
+					continue
+				}
+				_, s1 := from.Underlying().(*types.Struct)
+				_, s2 := to.Underlying().(*types.Struct)
+				if !s1 || !s2 {
+					continue
+				}
+				k := [2]string{from.String(), to.String()}
+				if k[0] > k[1] {
+					k[0], k[1] = k[1], k[0]
+				}
+				if seen[k] {
+					continue
+				}
+				seen[k] = true
+				pairs = append(pairs, pair{from, to})
+			}
+		}
+	}
+	sort.Slice(pairs, func(i, j int) bool {
+		return pairs[i].a.String()+pairs[i].b.String() < pairs[j].a.String()+pairs[j].b.String()
+	})
+	keyOf := func(tag, codec string) string {
+		v, ok := reflectTagLookup(tag, codec)
+		if !ok {
+			return "\x00absent"
+		}
+		name, _, _ := strings.Cut(v, ",")
+		return name
+	}
+	for _, p := range pairs {
+		sa, sb := p.a.Underlying().(*types.Struct), p.b.Underlying().(*types.Struct)
+		o := core.Ob{Rule: "T-TAGS", Key: fmt.Sprintf("%s<->%s", p.a.Obj().Name(), p.b.Obj().Name()), Pos: c.P.Pos(p.b.Obj().Pos()), Armed: true, Status: core.OK,
+			Want: "both struct types give every field the same json and nbt key"}
+		var bad []string
+		for i := 0; i < sa.NumFields() && i < sb.NumFields(); i++ {
+			for _, codec := range []string{"json", "nbt"} {
+				ka, kb := keyOf(sa.Tag(i), codec), keyOf(sb.Tag(i), codec)
+				if ka != kb {
+					bad = append(bad, fmt.Sprintf("field %s: %s key %q vs %q", sa.Field(i).Name(), codec, strings.TrimPrefix(ka, "\x00"), strings.TrimPrefix(kb, "\x00")))
+				}
+			}
+		}
+		if len(bad) > 0 {
+			o.Status, o.Got = core.Violated, strings.Join(bad, "; ")
+		}
+		obs = append(obs, o)
+	}
+	return obs
+}
+
+// reflectTagLookup: reflect.StructTag.Lookup without importing reflect's parser quirks.
+func reflectTagLookup(tag, key string) (string, bool) {
+	for tag != "" {
+		i := 0
+		for i < len(tag) && tag[i] == ' ' {
+			i++
+		}
+		tag = tag[i:]
+		if tag == "" {
+			break
+		}
+		i = 0
+		for i < len(tag) && tag[i] > ' ' && tag[i] != ':' && tag[i] != '"' && tag[i] != 0x7f {
+			i++
+		}
+		if i == 0 || i+1 >= len(tag) || tag[i] != ':' || tag[i+1] != '"' {
+			break
+		}
+		name := tag[:i]
+		tag = tag[i+1:]
+		i = 1
+		for i < len(tag) && tag[i] != '"' {
+			if tag[i] == '\\' {
+				i++
+			}
+			i++
+		}
+		if i >= len(tag) {
+			break
+		}
+		qvalue := tag[:i+1]
+		tag = tag[i+1:]
+		if key == name {
+			if len(qvalue) >= 2 {
+				return qvalue[1 : len(qvalue)-1], true
+			}
+			return "", true
+		}
+	}
+	return "", false
+}
+
+// ---------------------------------------------------------------------------
+// T-SIGNED[array-targets]: the elements of NBT byte/int/long arrays are signed.
+// A clause that handles one of the array tags and decodes into a local slice
+// whose elements it then reads as numbers declares that slice with a signed
+// element type of the tag's width (int8 / int32 / int64); with an unsigned
+// element type -1 becomes 255.
+
+func (c *Ctx) SignedArrayTargets(pkgs ...string) []core.Ob {
+	var obs []core.Ob
+	want := map[int64]types.BasicKind{7: types.Int8, 11: types.Int32, 12: types.Int64}
+	for _, ts := range c.tagSwitches(pkgs...) {
+		info := ts.pkg.TypesInfo
+		for tag, kind := range want {
+			cc := ts.cases[tag]
+			if cc == nil {
+				continue
+			}
+			k := 0
+			ast.Inspect(cc, func(n ast.Node) bool {
+				id, ok := n.(*ast.Ident)
+				if !ok {
+					return true
+				}
+				v, ok := info.Defs[id].(*types.Var)
+				if !ok || v.IsField() {
+					return true
+				}
+				sl, ok := v.Type().Underlying().(*types.Slice)
+				if !ok {
+					return true
+				}
+				eb, ok := sl.Elem().Underlying().(*types.Basic)
+				if !ok || eb.Info()&types.IsInteger == 0 {
+					return true
+				}
+				// is it a decode target (its address is taken in the clause)?
+				target := false
+				ast.Inspect(cc, func(m ast.Node) bool {
+					if u, ok := m.(*ast.UnaryExpr); ok && u.Op == token.AND {
+						if uid, ok := ast.Unparen(u.X).(*ast.Ident); ok && info.Uses[uid] == types.Object(v) {
+							target = true
+						}
+					}
+					return true
+				})
+				if !target {
+					return true
+				}
+				k++
+				o := core.Ob{Rule: "T-SIGNED", Key: fmt.Sprintf("%s#switch%d:%s:%s", ts.fn, ts.ordinal, ts.names[tag], v.Name()), Pos: c.P.Pos(id.Pos()), Func: ts.fn, Armed: true, Status: core.OK,
+					Want: fmt.Sprintf("the slice the %s payload is decoded into has signed elements (%s)", ts.names[tag], types.Typ[kind])}
+				if eb.Info()&types.IsUnsigned != 0 {
+					o.Status, o.Got = core.Violated, "element type "+sl.Elem().String()+" is unsigned: negative elements come out as large positive numbers"
+				}
+				obs = append(obs, o)
+				return true
+			})
+		}
+	}
+	return obs
+}
+
+// ---------------------------------------------------------------------------
+// R-ORIGIN[trust-anchor-immutable]: a package-level key that a signature
+// verification uses as its public-key operand is assigned only while the
+// package initialises. A decoder that stores the key it has just parsed into
+// that variable replaces the trust anchor with peer-supplied material.
+
+func (c *Ctx) TrustAnchorImmutable(pkgs ...string) []core.Ob {
+	var obs []core.Ob
+	anchors := map[*ssa.Global]token.Pos{}
+	for _, fn := range c.Funcs() {
+		if !inPkgs(fn, pkgs...) {
+			continue
+		}
+		for _, ci := range callsIn(fn, func(n string, _ *ssa.CallCommon) bool {
+			return n == "crypto/rsa.VerifyPKCS1v15" || n == "crypto/rsa.VerifyPSS" || n == "crypto/ecdsa.Verify" || n == "crypto/ecdsa.VerifyASN1" || n == "crypto/ed25519.Verify"
+		}) {
+			if len(ci.Common().Args) == 0 {
+				continue
+			}
+			if ld, ok := ci.Common().Args[0].(*ssa.UnOp); ok && ld.Op == token.MUL {
+				if g, ok := ld.X.(*ssa.Global); ok {
+					anchors[g] = ci.Pos()
+				}
+			}
+		}
+	}
+	var gs []*ssa.Global
+	for g := range anchors {
+		gs = append(gs, g)
+	}
+	sort.Slice(gs, func(i, j int) bool { return gs[i].String() < gs[j].String() })
+	for _, g := range gs {
+		o := core.Ob{Rule: "R-ORIGIN", Key: "trust-anchor-immutable:" + g.String(), Pos: c.P.Pos(anchors[g]), Armed: true, Status: core.OK,
+			Want: "the package-level verification key " + g.Name() + " is assigned only during package initialisation"}
+		for _, fn := range c.P.SrcFuncs() {
+			top := fn
+			for top.Parent() != nil {
+				top = top.Parent()
+			}
+			if top.Name() == "init" || strings.HasPrefix(top.Name(), "init#") {
+				continue
+			}
+			for _, b := range fn.Blocks {
+				for _, in := range b.Instrs {
+					if st, ok := in.(*ssa.Store); ok && st.Addr == ssa.Value(g) {
+						o.Status = core.Violated
+						o.Got = "assigned in " + core.FnName(fn) + " at " + c.P.Pos(st.Pos()) + ": whoever gets that code to run chooses the key signatures are checked against"
+					}
+				}
+			}
+		}
+		obs = append(obs, o)
+	}
+	if len(gs) == 0 {
+		obs = append(obs, core.Ob{Rule: "R-ORIGIN", Key: "trust-anchor-immutable:none", Armed: true, Status: core.Violated, Want: "a signature verification with a package-level key operand exists", Got: "none found in " + strings.Join(pkgs, ",")})
+	}
+	return obs
+}
+
+// ---------------------------------------------------------------------------
+// R-TRUNC[copy-into-fixed]: copy(dst, src) where dst is (a slice of) a local
+// fixed-size array and src is a string or slice parameter of the function (or
+// derived from one by conversion / concatenation) silently drops what does
+// not fit. It is accepted only behind a comparison of len(src) on the path.
+
+func (c *Ctx) FixedBufferCopies(pkgs ...string) []core.Ob {
+	var obs []core.Ob
+	n := 0
+	for _, fn := range c.Funcs() {
+		if !inPkgs(fn, pkgs...) {
+			continue
+		}
+		k := 0
+		for _, b := range fn.Blocks {
+			for _, in := range b.Instrs {
+				call, ok := in.(*ssa.Call)
+				if !ok {
+					continue
+				}
+				bi, ok := call.Common().Value.(*ssa.Builtin)
+				if !ok || bi.Name() != "copy" || len(call.Common().Args) != 2 {
+					continue
+				}
+				n++
+				dst, src := call.Common().Args[0], call.Common().Args[1]
+				// dst: slice of a local array
+				sl, ok := dst.(*ssa.Slice)
+				if !ok {
+					continue
+				}
+				al, ok := sl.X.(*ssa.Alloc)
+				if !ok {
+					continue
+				}
+				if _, isArr := deref(al.Type()).Underlying().(*types.Array); !isArr {
+					continue
+				}
+				// src: derived from a parameter of variable length
+				var param *ssa.Parameter
+				var walk func(v ssa.Value, d int)
+				walk = func(v ssa.Value, d int) {
+					if d > 4 || param != nil {
+						return
+					}
+					switch x := v.(type) {
+					case *ssa.Parameter:
+						switch x.Type().Underlying().(type) {
+						case *types.Slice:
+							param = x
+						case *types.Basic:
+							if x.Type().Underlying().(*types.Basic).Info()&types.IsString != 0 {
+								param = x
+							}
+						}
+					case *ssa.Convert:
+						walk(x.X, d+1)
+					case *ssa.ChangeType:
+						walk(x.X, d+1)
+					case *ssa.BinOp:
+						walk(x.X, d+1)
+						walk(x.Y, d+1)
+					case *ssa.Slice:
+						walk(x.X, d+1)
+					}
+				}
+				walk(src, 0)
+				if param == nil {
+					continue
+				}
+				k++
+				o := core.Ob{Rule: "R-TRUNC", Key: fmt.Sprintf("%s#copy-into-fixed%d", core.FnName(fn), k), Pos: c.P.Pos(call.Pos()), Func: core.FnName(fn), Armed: true, Status: core.OK,
+					Want: "a copy of " + param.Name() + " into a fixed-size local array happens only after its length was compared with something"}
+				guarded := false
+				if param.Referrers() != nil {
+					for _, r := range *param.Referrers() {
+						lc, ok := r.(*ssa.Call)
+						if !ok || lc.Referrers() == nil {
+							continue
+						}
+						if lb, isB := lc.Common().Value.(*ssa.Builtin); !isB || lb.Name() != "len" {
+							continue
+						}
+						for _, u := range *lc.Referrers() {
+							if cmp, ok := u.(*ssa.BinOp); ok && cmp.Block() != b && cmp.Block().Dominates(b) {
+								switch cmp.Op {
+								case token.LSS, token.LEQ, token.GTR, token.GEQ:
+									guarded = true
+								}
+							}
+						}
+					}
+				}
+				if !guarded {
+					o.Status, o.Got = core.Violated, "no comparison of len("+param.Name()+") dominates the copy: input longer than the array is cut off without an error"
+				}
+				obs = append(obs, o)
+			}
+		}
+	}
+	obs = append(obs, core.Ob{Rule: "R-TRUNC", Key: "scope:copy", Armed: true, Status: core.OK, Want: "copy calls were looked at", Got: fmt.Sprintf("%d copy calls in %s", n, strings.Join(pkgs, ","))})
+	return obs
+}
+
+// ---------------------------------------------------------------------------
+// R-LENPREFIX: a field writer that sends a VarInt length followed by a raw
+// write of bytes sends, as that length, the BYTE length of what it writes: the
+// prefix is len(x) of the same string / slice (through string<->[]byte
+// conversions) as the payload. A character count, a capacity or the length of
+// something else makes the reader cut the payload short or run past it.
+
+func payloadOrigin(v ssa.Value, d int) ssa.Value {
+	for ; d < 6; d++ {
+		switch x := v.(type) {
+		case *ssa.Convert:
+			v = x.X
+			continue
+		case *ssa.ChangeType:
+			v = x.X
+			continue
+		case *ssa.MakeInterface:
+			v = x.X
+			continue
+		}
+		break
+	}
+	return v
+}
+
+func (c *Ctx) LengthPrefixes(pkgs ...string) []core.Ob {
+	var obs []core.Ob
+	for _, fn := range c.Funcs() {
+		if !inPkgs(fn, pkgs...) || fn.Name() != "WriteTo" || fn.Signature.Recv() == nil {
+			continue
+		}
+		// raw payload writes: w.Write(p) / io.WriteString(w, s) with p, s not a local array
+		var payloads []ssa.Value
+		var prefixes []ssa.Value
+		var prefixPos token.Pos
+		for _, b := range fn.Blocks {
+			for _, in := range b.Instrs {
+				call, ok := in.(*ssa.Call)
+				if !ok {
+					continue
+				}
+				nm := calleeName(call.Common())
+				switch {
+				case call.Common().IsInvoke() && call.Common().Method.Name() == "Write" && len(call.Common().Args) == 1:
+					p := payloadOrigin(call.Common().Args[0], 0)
+					if sl, ok := p.(*ssa.Slice); ok {
+						if _, isAl := sl.X.(*ssa.Alloc); isAl {
+							continue // a scratch array (fixed-width field)
+						}
+					}
+					payloads = append(payloads, p)
+				case nm == "io.WriteString" && len(call.Common().Args) == 2:
+					payloads = append(payloads, payloadOrigin(call.Common().Args[1], 0))
+				case strings.HasSuffix(nm, "net/packet.(VarInt).WriteTo") && len(call.Common().Args) >= 1:
+					prefixes = append(prefixes, call.Common().Args[0])
+					prefixPos = call.Pos()
+				}
+			}
+		}
+		if len(prefixes) != 1 || len(payloads) != 1 {
+			continue
+		}
+		o := core.Ob{Rule: "R-LENPREFIX", Key: core.FnName(fn), Pos: c.P.Pos(prefixPos), Func: core.FnName(fn), Armed: true, Status: core.OK,
+			Want: "the VarInt written before the raw payload is len() of that payload (its byte length)"}
+		pv := payloadOrigin(prefixes[0], 0)
+		lc, isCall := pv.(*ssa.Call)
+		isLen := false
+		if isCall {
+			if bi, ok := lc.Common().Value.(*ssa.Builtin); ok && bi.Name() == "len" {
+				isLen = true
+			}
+		}
+		switch {
+		case !isLen:
+			o.Status, o.Got = core.Violated, "the length sent is not len() of anything (a count in other units than bytes?)"
+		case payloadOrigin(lc.Common().Args[0], 0) != payloads[0]:
+			o.Status, o.Got = core.Violated, "the length sent is the length of a different value than the one written"
+		}
+		obs = append(obs, o)
+	}
+	return obs
+}
+
+// ---------------------------------------------------------------------------
+// R-ORDER[drain-before-close]: a blocking Pull on a closable queue hands out
+// what is queued before it honours the closed flag: every way out of its wait
+// loop that depends on the flag lies behind the "queue is empty" edge. Testing
+// the flag first drops every element that was queued before Close.
+
+func (c *Ctx) DrainBeforeClose(pkg string) []core.Ob {
+	var obs []core.Ob
+	for _, fn := range c.Funcs() {
+		if !inPkgs(fn, pkg) || fn.Signature.Recv() == nil || len(fn.Params) == 0 {
+			continue
+		}
+		recv := fn.Params[0]
+		// a method that waits on a condition variable in a loop
+		for _, lp := range naturalLoops(fn) {
+			waits := false
+			for b := range lp.body {
+				for _, in := range b.Instrs {
+					if ci, ok := in.(ssa.CallInstruction); ok && strings.HasSuffix(calleeName(ci.Common()), "sync.(Cond).Wait") {
+						waits = true
+					}
+				}
+			}
+			if !waits {
+				continue
+			}
+			o := core.Ob{Rule: "R-ORDER", Key: "drain-before-close:" + core.FnName(fn), Pos: c.P.Pos(fn.Pos()), Func: core.FnName(fn), Armed: true, Status: core.OK,
+				Want: "the wait loop is left because of the closed flag only where the queue was found empty"}
+			// the emptiness test: a branch on `x != nil` / `x == nil` of a call result (Front()), or on Len()
+			var emptyEdges []*ssa.BasicBlock
+			for b := range lp.body {
+				iff, ok := b.Instrs[len(b.Instrs)-1].(*ssa.If)
+				if !ok {
+					continue
+				}
+				cmp, ok := iff.Cond.(*ssa.BinOp)
+				if !ok {
+					continue
+				}
+				if _, isCall := cmp.X.(*ssa.Call); !isCall {
+					continue
+				}
+				switch {
+				case cmp.Op == token.NEQ && isNilConst(cmp.Y):
+					emptyEdges = append(emptyEdges, b.Succs[1])
+				case cmp.Op == token.EQL && isNilConst(cmp.Y):
+					emptyEdges = append(emptyEdges, b.Succs[0])
+				case cmp.Op == token.EQL && isZeroConst(cmp.Y), cmp.Op == token.LEQ && isZeroConst(cmp.Y):
+					emptyEdges = append(emptyEdges, b.Succs[0])
+				case cmp.Op == token.GTR && isZeroConst(cmp.Y), cmp.Op == token.NEQ && isZeroConst(cmp.Y):
+					emptyEdges = append(emptyEdges, b.Succs[1])
+				}
+			}
+			n := 0
+			for b := range lp.body {
+				iff, ok := b.Instrs[len(b.Instrs)-1].(*ssa.If)
+				if !ok {
+					continue
+				}
+				// a branch on a boolean field of the receiver that leaves the loop
+				cond := iff.Cond
+				if u, ok := cond.(*ssa.UnOp); ok && u.Op == token.NOT {
+					cond = u.X
+				}
+				ld, ok := cond.(*ssa.UnOp)
+				if !ok || ld.Op != token.MUL || rootFieldOfAddr(ld.X, recv) == "" {
+					continue
+				}
+				leaves := false
+				for _, s := range b.Succs {
+					if !lp.body[s] {
+						leaves = true
+					}
+				}
+				if !leaves {
+					continue
+				}
+				n++
+				behind := false
+				for _, e := range emptyEdges {
+					if (e == b || e.Dominates(b)) && len(e.Preds) == 1 {
+						behind = true
+					}
+				}
+				if !behind {
+					o.Status, o.Got = core.Violated, "the loop is left on the flag "+rootFieldOfAddr(ld.X, recv)+" without the queue having been found empty: elements queued before Close are never handed out"
+				}
+			}
+			if n == 0 {
+				continue
+			}
+			obs = append(obs, o)
+		}
+	}
+	return obs
+}
+
+func isZeroConst(v ssa.Value) bool {
+	k, ok := constIntVal(v)
+	return ok && k == 0
+}
+
+// ---------------------------------------------------------------------------
+// R-NOMUT[cached-values]: a value kept in a process-wide sync.Map cache is
+// shared by every goroutine that looks it up: after it has been stored, nothing
+// writes through it. For each struct type whose values are put into a
+// package-level sync.Map, a map update or element store through a field of a
+// value of that type is allowed only in the function that builds the value
+// (the one that returns a fresh value of the type without loading it from the
+// cache).
+
+func (c *Ctx) CachedValuesImmutable(pkgs ...string) []core.Ob {
+	var obs []core.Ob
+	// types stored into package-level sync.Maps
+	cached := map[*types.Named]bool{}
+	for _, fn := range c.Funcs() {
+		if !inPkgs(fn, pkgs...) {
+			continue
+		}
+		for _, ci := range callsIn(fn, func(n string, _ *ssa.CallCommon) bool {
+			return n == "sync.(Map).Store" || n == "sync.(Map).LoadOrStore"
+		}) {
+			args := ci.Common().Args
+			if len(args) < 3 {
+				continue
+			}
+			if _, isG := args[0].(*ssa.Global); !isG {
+				continue
+			}
+			if mi, ok := args[2].(*ssa.MakeInterface); ok {
+				if n, ok := types.Unalias(deref(mi.X.Type())).(*types.Named); ok {
+					if _, isSt := n.Underlying().(*types.Struct); isSt {
+						cached[n] = true
+					}
+				}
+			}
+		}
+	}
+	var names []*types.Named
+	for n := range cached {
+		names = append(names, n)
+	}
+	sort.Slice(names, func(i, j int) bool { return names[i].String() < names[j].String() })
+	for _, nt := range names {
+		o := core.Ob{Rule: "R-NOMUT", Key: "cached-values:" + nt.Obj().Name(), Pos: c.P.Pos(nt.Obj().Pos()), Armed: true, Status: core.OK,
+			Want: "values of " + nt.Obj().Name() + " (kept in a process-wide cache) are written only while they are built"}
+		for _, fn := range c.Funcs() {
+			if !inPkgs(fn, pkgs...) {
+				continue
+			}
+			// the builder: returns the type and does not obtain it from a sync.Map
+			builder := false
+			if res := fn.Signature.Results(); res.Len() >= 1 {
+				if rn, ok := types.Unalias(deref(res.At(0).Type())).(*types.Named); ok && rn == nt {
+					builder = len(callsIn(fn, func(n string, _ *ssa.CallCommon) bool { return strings.HasPrefix(n, "sync.(Map).Load") })) == 0
+				}
+			}
+			top := fn
+			for top.Parent() != nil {
+				top = top.Parent()
+			}
+			if builder || top != fn && func() bool {
+				if res := top.Signature.Results(); res.Len() >= 1 {
+					if rn, ok := types.Unalias(deref(res.At(0).Type())).(*types.Named); ok && rn == nt {
+						return true
+					}
+				}
+				return false
+			}() {
+				continue
+			}
+			throughCached := func(v ssa.Value) bool {
+				// v: the map / slice operand; is it (a load of) a field of a value of the cached type?
+				for d := 0; d < 6; d++ {
+					switch x := v.(type) {
+					case *ssa.UnOp:
+						v = x.X
+						continue
+					case *ssa.IndexAddr:
+						v = x.X
+						continue
+					case *ssa.FieldAddr:
+						if n, ok := types.Unalias(deref(x.X.Type())).(*types.Named); ok && n == nt {
+							return true
+						}
+						v = x.X
+						continue
+					case *ssa.Field:
+						if n, ok := types.Unalias(x.X.Type()).(*types.Named); ok && n == nt {
+							return true
+						}
+						v = x.X
+						continue
+					}
+					break
+				}
+				return false
+			}
+			for _, b := range fn.Blocks {
+				for _, in := range b.Instrs {
+					switch x := in.(type) {
+					case *ssa.MapUpdate:
+						if throughCached(x.Map) {
+							o.Status, o.Got = core.Violated, "map update through a cached "+nt.Obj().Name()+" in "+core.FnName(fn)+" at "+c.P.Pos(x.Pos())+": concurrent decoders of the same type race on it"
+						}
+					case *ssa.Store:
+						if ia, ok := x.Addr.(*ssa.IndexAddr); ok && throughCached(ia.X) {
+							// a store into an element reached through the cached value (not into a local copy)
+							if _, isAl := ia.X.(*ssa.Alloc); !isAl {
+								o.Status, o.Got = core.Violated, "element store through a cached "+nt.Obj().Name()+" in "+core.FnName(fn)+" at "+c.P.Pos(x.Pos())
+							}
+						}
+					}
+				}
+			}
+		}
+		obs = append(obs, o)
+	}
+	return obs
+}
+
+// ---------------------------------------------------------------------------
+// T-RCONFRAME[writer-limit]: if the RCON writer refuses over-long packets
+// itself, the quantity it compares with the package-size limit is the declared
+// length it is about to send (the reader compares exactly that): as a linear
+// form a*len(payload)+b both must agree. A guard that counts the 4 bytes of
+// the length field as well refuses payloads the reader would accept.
+
+// linLen: v as a*len(x)+b for a string/slice parameter x of fn (ok=false if not of that shape).
+func linLen(v ssa.Value, d int) (a, b int64, ok bool) {
+	if d > 8 {
+		return 0, 0, false
+	}
+	switch x := v.(type) {
+	case *ssa.Const:
+		if k, isK := constIntVal(x); isK {
+			return 0, k, true
+		}
+	case *ssa.Convert:
+		return linLen(x.X, d+1)
+	case *ssa.ChangeType:
+		return linLen(x.X, d+1)
+	case *ssa.Call:
+		if bi, isB := x.Common().Value.(*ssa.Builtin); isB && bi.Name() == "len" {
+			return 1, 0, true
+		}
+	case *ssa.BinOp:
+		a1, b1, ok1 := linLen(x.X, d+1)
+		a2, b2, ok2 := linLen(x.Y, d+1)
+		if !ok1 || !ok2 {
+			return 0, 0, false
+		}
+		switch x.Op {
+		case token.ADD:
+			return a1 + a2, b1 + b2, true
+		case token.SUB:
+			return a1 - a2, b1 - b2, true
+		}
+	}
+	return 0, 0, false
+}
+
+func (c *Ctx) RCONWriterLimit() []core.Ob {
+	o := core.Ob{Rule: "T-RCONFRAME", Key: "writer:limit-is-on-the-declared-length", Armed: true, Status: core.OK,
+		Want: "a size refusal in the writer compares the declared length (what the reader compares with the limit), not another count"}
+	w := c.Fn("net.(*RCONConn).WritePacket")
+	lim, okL := c.constValue("net", "MaxRCONPackageSize")
+	if w == nil || !okL {
+		o.Status, o.Got = core.Violated, "WritePacket or MaxRCONPackageSize not found"
+		return []core.Ob{o}
+	}
+	o.Pos, o.Func = c.P.Pos(w.Pos()), core.FnName(w)
+	limit, _ := new(big.Int).SetString(lim.String(), 10)
+	// the declared length: the first 32-bit value of linear form a*len+b with a == 1 that is written
+	var declA, declB int64
+	haveDecl := false
+	for _, f := range c.withPkgCallees(w, 2) {
+		for _, b := range f.Blocks {
+			for _, in := range b.Instrs {
+				cv, ok := in.(*ssa.Convert)
+				if !ok || haveDecl {
+					continue
+				}
+				if bt, ok := cv.Type().Underlying().(*types.Basic); !ok || (bt.Kind() != types.Int32 && bt.Kind() != types.Uint32) {
+					continue
+				}
+				if a, bb, ok := linLen(cv.X, 0); ok && a == 1 {
+					declA, declB, haveDecl = a, bb, true
+				}
+			}
+		}
+	}
+	n := 0
+	for _, f := range c.withPkgCallees(w, 2) {
+		for _, b := range f.Blocks {
+			for _, in := range b.Instrs {
+				cmp, ok := in.(*ssa.BinOp)
+				if !ok {
+					continue
+				}
+				switch cmp.Op {
+				case token.GTR, token.GEQ, token.LSS, token.LEQ:
+				default:
+					continue
+				}
+				for _, pr := range [][2]ssa.Value{{cmp.X, cmp.Y}, {cmp.Y, cmp.X}} {
+					k, isK := constIntVal(pr[1])
+					if !isK || limit == nil || !limit.IsInt64() || k != limit.Int64() {
+						continue
+					}
+					a, bb, ok := linLen(pr[0], 0)
+					if !ok || a == 0 {
+						continue
+					}
+					n++
+					if !haveDecl {
+						o.Status, o.Got = core.Violated, "the declared length written by the writer was not recognised"
+					} else if a != declA || bb != declB {
+						o.Status, o.Pos = core.Violated, c.P.Pos(cmp.Pos())
+						o.Got = fmt.Sprintf("the writer compares %d*len%+d with the limit but declares %d*len%+d: payloads near the limit that the reader accepts are refused (or the reverse)", a, bb, declA, declB)
+					}
+				}
+			}
+		}
+	}
+	o.Got += fmt.Sprintf(" [%d writer-side limit test(s)]", n)
+	return []core.Ob{o}
+}
+
+// reflectKindValue: the numeric values of reflect.Kind (fixed by the reflect package's API).
+var reflectKindValue = map[string]int64{"Invalid": 0, "Bool": 1, "Int": 2, "Int8": 3, "Int16": 4, "Int32": 5, "Int64": 6, "Uint": 7, "Uint8": 8, "Uint16": 9, "Uint32": 10, "Uint64": 11, "Uintptr": 12,
+	"Float32": 13, "Float64": 14, "Complex64": 15, "Complex128": 16, "Array": 17, "Chan": 18, "Func": 19, "Interface": 20, "Map": 21, "Pointer": 22, "Ptr": 22, "Slice": 23, "String": 24, "Struct": 25, "UnsafePointer": 26}
+
+// fieldInFrame: the field of the ROOT's receiver that addr (a value of frame fr) denotes.
+func (v *iview) fieldInFrame(fr *iframe, addr ssa.Value) string {
+	if fr.parent == nil {
+		if len(fr.fn.Params) > 0 {
+			if f := rootFieldOfAddr(addr, fr.fn.Params[0]); f != "" {
+				return f
+			}
+		}
+		// a closure of the root: the receiver is a free variable
+		return ""
+	}
+	if len(fr.fn.Params) == 0 || !fr.sameReceiver(v.root) {
+		return v.freeVarField(fr, addr)
+	}
+	return rootFieldOfAddr(addr, fr.fn.Params[0])
+}
+
+// freeVarField: addr is a field of a captured receiver (closure of a method).
+func (v *iview) freeVarField(fr *iframe, addr ssa.Value) string {
+	for d := 0; d < 6; d++ {
+		switch x := addr.(type) {
+		case *ssa.FieldAddr:
+			if st, ok := deref(x.X.Type()).Underlying().(*types.Struct); ok {
+				base := x.X
+				if ld, ok := base.(*ssa.UnOp); ok {
+					base = ld.X
+				}
+				if _, isFV := base.(*ssa.FreeVar); isFV && len(v.root.Params) > 0 && types.Identical(deref(deref(base.Type())), deref(v.root.Params[0].Type())) {
+					return st.Field(x.Field).Name()
+				}
+			}
+			return ""
+		case *ssa.UnOp:
+			addr = x.X
+		default:
+			return ""
+		}
+	}
+	return ""
+}
+
+// reachAvoidingErrAware is reachAvoiding with one correlation: when the path leaves an inlined callee
+// through a return whose error operand is known to be non-nil (or is the nil constant), the caller's
+// test of that call's error takes the matching side only.
+func (v *iview) reachAvoidingErrAware(a, b int, avoid []int) bool {
+	blocked := map[int]bool{}
+	for _, x := range avoid {
+		blocked[x] = true
+	}
+	if blocked[a] {
+		return false
+	}
+	type state struct {
+		node int
+		call ssa.CallInstruction // pending: the call whose error is known ...
+		nz   bool                // ... to be non-nil (true) / nil (false)
+	}
+	seen := map[state]bool{}
+	work := []state{{node: a}}
+	for len(work) > 0 {
+		s := work[len(work)-1]
+		work = work[:len(work)-1]
+		if seen[s] {
+			continue
+		}
+		seen[s] = true
+		if s.node == b {
+			return true
+		}
+		nd := v.nodes[s.node]
+		next := s
+		// leaving a callee frame through a return with a decided error
+		if ret, ok := nd.in.(*ssa.Return); ok && nd.frame.parent != nil && len(ret.Results) > 0 {
+			last := ret.Results[len(ret.Results)-1]
+			if types.Identical(last.Type(), errType) {
+				if kc, isK := last.(*ssa.Const); isK && kc.IsNil() {
+					next.call, next.nz = nd.frame.call, false
+				} else if errKnownNonNil(last, ret.Block()) {
+					next.call, next.nz = nd.frame.call, true
+				} else {
+					next.call = nil
+				}
+			} else if kc, isK := last.(*ssa.Const); isK && len(ret.Results) == 1 && kc.Value != nil && kc.Value.Kind() == constant.Bool {
+				// a predicate helper returning a constant: the caller's branch on the call takes that side
+				next.call, next.nz = nd.frame.call, constant.BoolVal(kc.Value)
+			}
+		}
+		succs := nd.succs
+		if iff, ok := nd.in.(*ssa.If); ok && s.call != nil && len(nd.succs) == 2 {
+			// `if pred(..)` / `if !pred(..)`
+			cond, neg := iff.Cond, false
+			if u, ok := cond.(*ssa.UnOp); ok && u.Op == token.NOT {
+				cond, neg = u.X, true
+			}
+			if ci, ok := cond.(ssa.CallInstruction); ok && ci == s.call && nd.frame == v.frameOfCall(s.call) {
+				if s.nz != neg {
+					succs = nd.succs[:1]
+				} else {
+					succs = nd.succs[1:]
+				}
+				next.call = nil
+			}
+		}
+		if iff, ok := nd.in.(*ssa.If); ok && s.call != nil && next.call != nil && len(nd.succs) == 2 {
+			if cmp, ok := iff.Cond.(*ssa.BinOp); ok && (cmp.Op == token.NEQ || cmp.Op == token.EQL) && (isNilConst(cmp.X) || isNilConst(cmp.Y)) {
+				e := cmp.X
+				if isNilConst(cmp.X) {
+					e = cmp.Y
+				}
+				from := e
+				if ex, ok := e.(*ssa.Extract); ok {
+					from = ex.Tuple
+				}
+				if ci, ok := from.(ssa.CallInstruction); ok && ci == s.call && nd.frame == v.frameOfCall(s.call) {
+					takeTrue := (cmp.Op == token.NEQ) == s.nz
+					if takeTrue {
+						succs = nd.succs[:1]
+					} else {
+						succs = nd.succs[1:]
+					}
+					next.call = nil
+				}
+			}
+		}
+		for _, x := range succs {
+			if !blocked[x] {
+				work = append(work, state{node: x, call: next.call, nz: next.nz})
+			}
+		}
+	}
+	return false
+}
+
+// frameOfCall: the frame in which the call instruction that entered some inlined frame lives.
+func (v *iview) frameOfCall(call ssa.CallInstruction) *iframe {
+	for _, n := range v.nodes {
+		if n.frame.call == call {
+			return n.frame.parent
+		}
+	}
+	return nil
 }
